@@ -615,6 +615,11 @@ def orchestrate(pid, tier, seed, replay):
             "wall_s": round(wall, 2),
             "violations": len(new),
         }
+        if len(acc.nontrivial) < 2:
+            raise HarnessError(
+                f"only {len(acc.nontrivial)} distinct non-trivial case(s) out of {acc.evaluations} evaluations "
+                f"(budget_skipped={acc.budget_skipped}, discarded={dict(acc.discarded)}): no valid evidence can be written"
+            )
         if hasattr(mod, "evidence_extra"):
             ev["coverage"].update(mod.evidence_extra(tier))
         validate_evidence(ev)
